@@ -21,8 +21,8 @@ func init() {
 			"re-run with the k-th Write call failing, for every k of the fault-free run, permanently and once, accepting 0 or a partial count; distinct = (stream or history, fault position, mode); " +
 			"non-trivial = the fault was actually injected during an API call",
 		Assumptions: []string{"for a bufio.Reader the pending call is the first call that returns an error (bufio delays the failure)", "after the first surfaced error the run stops: later behaviour is not part of the property"},
-		Shards: 32,
-		Run:    runC18,
+		Shards:      32,
+		Run:         runC18,
 		Guards: func(m *mon.Merged, tier string) []string {
 			var out []string
 			need(m, &out, "reader_faults_injected", 20000)
